@@ -877,7 +877,8 @@ def _split_top(l):
 
 
 HUGE = {'~0u', '1u << 31', '1ll << 62', '18446744073709551615u', '0x7fffffff * 4', '-(-2147483647-1)', '2147483647 + 1',
-        '1 << 64', '1 << 1000', '99999999999999999999'}
+        '1 << 64', '1 << 1000', '99999999999999999999', '(-2147483647-1) / -1', '(-2147483647-1) % -1',
+        '-9223372036854775807ll - 1'}
 
 
 def const_contexts():
